@@ -214,7 +214,14 @@ def oracle(case, impl, spec):
         if chars != refchars:
             return 'step %d: characters %s, the C library on the abstract string gives %s' % (n, chars, refchars)
         if flags:
-            return 'step %d: observer disagrees with libc on the reference buffer: %s' % (n, flags)
+            why = {'HASHSTALE': 'hash(s) right after the operation (nothing else hashed since the hash right before it) is not hash_data over the current characters: the hash depends on history',
+                   'HASHREF': 'hash(s) is not hash_data over its characters',
+                   'HASHREPEAT': 'a second hash(s) call gives another value', 'HASHAGAIN': 'a later hash(s) call gives another value',
+                   'HASHCOPY': 'a fresh String with the same characters hashes differently or is not eq',
+                   'HASHFRESH': 'a newly created String (possibly at the address of one just deleted) does not hash to hash_data over its characters',
+                   'LEN': 'len differs from strlen of the reference', 'CSTR': 'c_str differs from the reference',
+                   'EQ': 'eq/cmp with an equal C string disagree'}
+            return 'step %d: %s [%s]' % (n, why.get(f0, 'observer disagrees with libc on the reference buffer'), flags)
         if out != b[0]:
             return 'step %d: result %s, specification says %s' % (n, out, b[0])
         if chars != b[1]:
@@ -288,7 +295,8 @@ CORPUS = [
     '616263|M K E R s l R C A s',            # the String itself as needle / comparand; rem(s, s) empties it
     'N|l s h c6162 y s z5 y l c63 s',        # new(String) without arguments; copies
     '616263|f3:X s l',                       # print_to(s, len, "%s", s): the argument was read after realloc released it
-    '616263|f1:X,L2d,X s f0:L3c,X,L3e s f9:X s',   # the String itself among the pieces, evaluated piece by piece
+    '616263|f1:X,L2d,X s f0:L3c,X,L3e s f9:X s',
+    '616263646566|h r6364 h h z2 h a6161 h c62 h f1:S63 h h',   # seeded C16-r6-2: hash remembered per buffer address across in-place mutation   # the String itself among the pieces, evaluated piece by piece
 ]
 
 
@@ -365,6 +373,9 @@ def run(ctx):
     ctx.cov['rule'] = ('seeded operation histories (assign/concat/append/resize/rem/mem/cmp/eq/len/c_str/hash/print_to with literal, %s and %li '
                        'pieces at positions inside, at and beyond the end) over alphabets of 1, 2, 3 letters (so that repeated and overlapping '
                        'occurrences are frequent), awkward bytes (0x01, %, 0x7f..0xff, the allocator poison values) and strings up to 200 bytes; '
+                       'after EVERY operation hash(s) is taken first and last among all Strings hashed, directly before and after the '
+                       'operation too, and compared with hash_data over the reference bytes; a fresh String is created at a just-released '
+                       'address and hashed; a share of the histories runs again with an allocator that reallocates in place; '
                        'rem/mem arguments are drawn per class: empty, equal to the target, at the start, in the middle, at the end, '
                        'overlapping a second occurrence, absent (class counts in coverage.classes); a boundary stream with piece / argument '
                        'lengths 0,1,7,8,15..17,31..33,63..65,127..129,255..257,1023..1025,4095..4097 for formatted writes (literal, %s, the String '
@@ -428,8 +439,18 @@ def run(ctx):
     ex2 = exhaustive_ops(2, 2) if quick else exhaustive_ops(3, 3)
     for i in range(0, len(ex2), 4000):
         d.feed(ex2[i:i + 4000])
+    # the same histories with an allocator whose realloc keeps the ADDRESS whenever the new size fits the block's
+    # capacity (shrinking, small growth): in-place mutation, as with a real allocator
+    di = vlib.Differential(ctx, 'string_inplace', chunked(h, dict(henv, H_INPLACE='1')), run_model, run_spec,
+                           oracle, corr, nontrivial, split, join)
+    di.feed(CORPUS)
+    ni = 600 if quick else 20000
+    for i in range(0, min(n, ni), 2000):
+        di.feed(cases[i:min(n, ni)][:2000] if i == 0 else cases[i:min(i + 2000, ni)])
+    di.feed(bd[::7] if quick else bd)
+    di.report()
     ctx.cov['classes'] = dict(sorted(stats.items()), exhaustive_rem_cases=len(ex), exhaustive_op_sequences=len(ex2),
-                              boundary_length_cases=len(bd))
+                              boundary_length_cases=len(bd), inplace_allocator_cases=di.ncases)
 
     if not quick:
         # the same stream under AddressSanitizer (exact allocations, no canaries)
